@@ -145,8 +145,8 @@ func replayWitnesses(repo, hdir string, r *HarnessRun, labels []string) (int, []
 	var bad []string
 	for _, l := range labels {
 		w := r.Witnesses[l]
-		if w.Model["_concretization_failed"] != "" {
-			continue // cannot be concretised; not counted as validated
+		if w.Model["_concretization_failed"] != "" || w.SymOnly {
+			continue // cannot be concretised / involves injected faults; not counted as validated
 		}
 		res := runReplay(bin, r.Name, w.Model, replayThorough)
 		switch {
@@ -179,7 +179,7 @@ func replayViolation(repo, hdir string, v *Violation, path string) string {
 	if v.Model["_concretization_failed"] != "" {
 		return "model could not be concretised"
 	}
-	if len(v.Sched) > 0 || v.Kind == "deadlock" {
+	if len(v.Sched) > 0 || v.Kind == "deadlock" || v.SymOnly {
 		return "unreplayed" // schedules are not replayed natively (stated)
 	}
 	res := runReplay(bin, v.Harness, v.Model, replayThorough)
